@@ -131,7 +131,7 @@ Definition dbody (ev : event) (b : qbody) : res (list (list value)) :=
 Definition dquery (ev : event) (q : query) : res (list (list value)) :=
   match q_filter q with
   | None => dbody ev (q_body q)
-  | Some c => rdo v <- de ev c; rdo b <- truth v; if b then dbody ev (q_body q) else ROk []
+  | Some c => rdo v <- dex ev c; rdo b <- truth v; if b then dbody ev (q_body q) else ROk []
   end.
 
 (* a job: the rows of the events in order; the first undefined event aborts it *)
